@@ -2,6 +2,7 @@ package main
 
 import (
 	"fmt"
+	"os"
 	"path/filepath"
 	"regexp"
 	"strconv"
@@ -431,6 +432,17 @@ func init() {
 				if kw == "style" || kw == "match" {
 					cells = append(cells, c14NotationCell("c14ai_"+kw+"_"+safeID(s), kw, s, true))
 				}
+				if len([]rune(s)) <= 1 {
+					// round 5 (C14-m9): the same faulty file with -log - the log file must not be the only place the diagnostic goes to
+					lc := c14NotationCell("c14alog_"+kw+"_"+safeID(s), kw, s, false)
+					lc.Args = []string{"-log", "setup.go"}
+					cells = append(cells, lc)
+					if kw == "style" || kw == "match" {
+						li := c14NotationCell("c14ailog_"+kw+"_"+safeID(s), kw, s, true)
+						li.Args = []string{"-log", "setup.go"}
+						cells = append(cells, li)
+					}
+				}
 			}
 			// two-argument shapes built from the alphabet (src/dst and func/src slots)
 			if kw == "map" || kw == "conv" || kw == "literal" {
@@ -483,6 +495,7 @@ func init() {
 		var sampled atomic.Int32
 		deadline := time.Now().Add(14 * time.Minute)
 		var skipped atomic.Int64
+		e.c14BrokenDependency()
 		e.Explore(cells, func(o *scen.Outcome, t *report.Tally) []report.Finding {
 			_ = deadline
 			_ = skipped
@@ -569,4 +582,74 @@ func panicFrame(stderr string) string {
 		}
 	}
 	return "unknown-frame"
+}
+
+// c14BrokenDependency (round 5, C14-m10): the function a notation names lives in ANOTHER package of the module.  History:
+// (optionally) a successful run, then an edit that makes that function unusable - nothing in the setup file's own
+// directory is touched -, then the run under test.  It has to say so (non-zero exit, positioned message) however
+// fresh the output of the earlier run looks.
+func (e *Env) c14BrokenDependency() {
+	// the hook needs the operand types, so they live in a third package both sides import
+	files := func(model string) map[string]string {
+		return map[string]string{
+			"go.mod":         "module example.com/dep\n\ngo 1.19\n",
+			"types/types.go": "package types\n\ntype S struct{ A int }\n\ntype D struct{ A string }\n",
+			"model/model.go": model,
+			"p/setup.go":     "//go:build convergen\n\npackage p\n\nimport (\n\t\"example.com/dep/model\"\n\t\"example.com/dep/types\"\n)\n\ntype Convergen interface {\n\t// :conv model.Itoa A\n\t// :postprocess model.After\n\tConv(*types.S) *types.D\n}\n",
+			"p/doc.go":       "package p\n",
+		}
+	}
+	const head = "package model\n\nimport \"example.com/dep/types\"\n\n"
+	goodModel := head + "func Itoa(i int) string { return \"i\" }\n\nfunc After(d *types.D, s *types.S) {}\n"
+	edits := []struct{ id, model string }{
+		{"hook-loses-a-parameter", head + "func Itoa(i int) string { return \"i\" }\n\nfunc After(d *types.D) {}\n\nvar _ types.S\n"},
+		{"hook-removed", head + "func Itoa(i int) string { return \"i\" }\n\nvar _ types.S\n"},
+		{"converter-removed", head + "func After(d *types.D, s *types.S) {}\n"},
+		{"converter-gains-a-parameter", head + "func Itoa(i int, base int) string { return \"i\" }\n\nfunc After(d *types.D, s *types.S) {}\n"},
+		{"converter-unexported", head + "func itoa(i int) string { return \"i\" }\n\nvar _ = itoa\n\nfunc After(d *types.D, s *types.S) {}\n"},
+	}
+	for _, ed := range edits {
+		for first := 0; first < 2; first++ {
+			id := fmt.Sprintf("c14dep_%s_%d", ed.id, first)
+			root := filepath.Join(e.Scratch, "dep", id)
+			_ = os.RemoveAll(root)
+			for rel, src := range files(goodModel) {
+				_ = os.MkdirAll(filepath.Dir(filepath.Join(root, rel)), 0o755)
+				_ = os.WriteFile(filepath.Join(root, rel), []byte(src), 0o644)
+			}
+			cwd := filepath.Join(root, "p")
+			steps := []string{}
+			if first == 1 {
+				r0 := e.Runner.Run(cwd, []string{"setup.go"})
+				steps = append(steps, fmt.Sprintf("convergen setup.go (exit %d)", r0.Exit))
+				if r0.Exit != 0 {
+					e.Rep.Report(report.Finding{Key: "C14|broken-dependency|harness", CellID: id, What: "the well-formed first version was rejected: " + clip(r0.Stderr, 300)})
+					_ = os.RemoveAll(root)
+					continue
+				}
+			}
+			_ = os.WriteFile(filepath.Join(root, "model", "model.go"), []byte(ed.model), 0o644)
+			steps = append(steps, "edit model/model.go: "+ed.id, "convergen setup.go")
+			res := e.Runner.Run(cwd, []string{"setup.go"})
+			_ = os.RemoveAll(root)
+			e.Rep.AddStates(1)
+			e.Rep.AddTransitions(1 + first)
+			e.Rep.AddEvaluations(1)
+			e.Rep.AddValidated(1)
+			e.Rep.Outcome("broken-dependency")
+			e.Rep.Nontrivial(id)
+			rep := func(key, what string) {
+				e.Rep.Report(report.Finding{Key: fmt.Sprintf("C14|broken-dependency|%s|edit=%s|after-a-successful-run=%d", key, ed.id, first), CellID: id, What: what,
+					Replay: &report.Replay{Kind: "history", Files: files(goodModel), Steps: steps, Observed: fmt.Sprintf("exit=%d stderr=%q", res.Exit, clip(res.Stderr, 300))}})
+			}
+			switch {
+			case res.Crashed() || res.TimedOut:
+				rep("crash", clip(res.Stderr, 300))
+			case res.Exit == 0:
+				rep("accepted", "the notation names a function that is no longer usable, and the run reports success")
+			case !strings.Contains(res.Stderr, "setup.go:"):
+				rep("no-position", "rejected without the position of the offending notation: "+clip(res.Stderr, 200))
+			}
+		}
+	}
 }
